@@ -63,6 +63,23 @@ func shortTypeName(T types.Type) string {
 	return types.TypeString(T, func(p *types.Package) string { return p.Name() })
 }
 
+// canonTypeName: like shortTypeName but with type aliases resolved at every
+// level (ociregistry.Digest and digest.Digest are the same type).
+func canonTypeName(T types.Type) string {
+	T = types.Unalias(T)
+	switch u := T.(type) {
+	case *types.Pointer:
+		return "*" + canonTypeName(u.Elem())
+	case *types.Slice:
+		return "[]" + canonTypeName(u.Elem())
+	case *types.Array:
+		return fmt.Sprintf("[%d]%s", u.Len(), canonTypeName(u.Elem()))
+	case *types.Map:
+		return "map[" + canonTypeName(u.Key()) + "]" + canonTypeName(u.Elem())
+	}
+	return shortTypeName(T)
+}
+
 func (te *TypeEnv) TagOf(T types.Type) int {
 	k := typeKey(T)
 	if n, ok := te.tags[k]; ok {
